@@ -556,6 +556,8 @@ type crashReport struct {
 	Boundary         string                     `json:"boundary_crash_point"`
 	Cases            int                        `json:"cases"`
 	Strace           string                     `json:"strace"`
+	CrossDeviceTmp   string                     `json:"cross_device_tmp"`
+	CrossDeviceKills int                        `json:"cross_device_kills"`
 }
 
 // reference data of one size class, from the uninterrupted run
@@ -598,9 +600,12 @@ func (ref *crashRef) childArgs(exe, root string) []string {
 }
 
 // crashRun runs strace; returns (killed by SIGKILL, exit code, stderr).
-func crashRun(root string, args []string) (bool, int, string) {
+func crashRun(root string, args []string, env ...string) (bool, int, string) {
 	cmd := exec.Command(args[0], args[1:]...)
 	cmd.Dir = root
+	if len(env) > 0 {
+		cmd.Env = append(os.Environ(), env...)
+	}
 	var stderr bytes.Buffer
 	cmd.Stderr = &stderr
 	cmd.Stdout = &stderr
@@ -1078,6 +1083,46 @@ func cmdCrash(args []string) {
 				ref.size, res.k, ref.calls[res.k-1].Path, res.dirCreated, res.completed == res.k))
 		}
 	}
+	// ---- (c) the same saves with the system temp directory (TMPDIR) on another device than the fail-file directory:
+	// SIGKILL at the n-th call of every data-moving system call (write, copy_file_range, sendfile, ...) of the child.
+	// Whatever the save does with a temp directory it cannot rename out of, no picked-up file may be partial.
+	if other := crashOtherDeviceDir(scratch); other == "" {
+		rep.CrossDeviceTmp = "unavailable: no writable directory on another device than " + scratch
+	} else {
+		rep.CrossDeviceTmp = other
+		movers := []string{"write", "pwrite64", "writev", "copy_file_range", "sendfile", "splice", "ftruncate", "linkat"}
+		for i, ref := range refs {
+			for _, sc := range movers {
+				for _, n := range []int{1, 2, 3, 4, 5, 6, 8, 12, 16, 32, 64, 128, 256, 512} {
+					root := filepath.Join(scratch, fmt.Sprintf("x-%d-%s-%d", i, sc, n))
+					if err := os.Mkdir(root, 0775); err != nil {
+						break
+					}
+					cmdline := append([]string{stracePath, "-f", "-qq", "-e", "signal=none", "-o", "/dev/null", "-e", "trace=" + sc,
+						fmt.Sprintf("--inject=%s:signal=SIGKILL:when=%d", sc, n)}, ref.childArgs(exe, root)...)
+					killed, _, _ := crashRun(root, cmdline, "TMPDIR="+other)
+					rep.CrossDeviceKills++
+					if fst, err := crashWalk(root); err == nil {
+						_, viol := ref.crashCheckProperty(root, fst)
+						for _, v := range viol {
+							rep.Violations = append(rep.Violations, crashRecord{Size: ref.size, K: n, What: v + " (system temp directory on another device, SIGKILL at " + sc + fmt.Sprintf(" #%d)", n),
+								Replay: "TMPDIR=" + other + " " + crashQuote(cmdline)})
+						}
+					}
+					_ = os.RemoveAll(root)
+					if ents, err := os.ReadDir(other); err == nil {
+						for _, e := range ents {
+							_ = os.RemoveAll(filepath.Join(other, e.Name()))
+						}
+					}
+					if !killed {
+						break
+					}
+				}
+			}
+		}
+		_ = os.RemoveAll(other)
+	}
 	switch {
 	case before > 0 && after == 0:
 		rep.InjectSemantics = "before-call"
@@ -1161,4 +1206,29 @@ func crashKill(scratch, stracePath, exe string, ref *crashRef, k int, idx int) (
 		}
 	}
 	return res, ""
+}
+
+// crashOtherDeviceDir makes a scratch directory on another device than dir ("" if there is none).
+func crashOtherDeviceDir(dir string) string {
+	var st syscall.Stat_t
+	if syscall.Stat(dir, &st) != nil {
+		return ""
+	}
+	cands := []string{os.Getenv("VERIF_OTHER_DEVICE"), "/dev/shm", "/run/shm", "/var/tmp", "/run/user/" + strconv.Itoa(os.Getuid())}
+	if h, err := os.UserHomeDir(); err == nil {
+		cands = append(cands, h)
+	}
+	for _, c := range cands {
+		if c == "" {
+			continue
+		}
+		var cs syscall.Stat_t
+		if syscall.Stat(c, &cs) != nil || cs.Dev == st.Dev {
+			continue
+		}
+		if d, err := os.MkdirTemp(c, "verif-xdev-"); err == nil {
+			return d
+		}
+	}
+	return ""
 }
